@@ -682,6 +682,12 @@ impl Game {
         if self.is_endgame() {
             self.piece_scores[PieceType::King as usize].set(&scores::KING_SCORES_END);
             self.phase = GamePhase::Endgame;
+            // The kings were scored with the previous table: re-score them so that the running
+            // score and the per-square caches agree with the table that is now installed
+            for position in self.king_positions {
+                let place = self.get_position(position);
+                self.set_position(position, place);
+            }
         }
     }
 
